@@ -1031,7 +1031,7 @@ func (s *Store[K, V]) Recover(version uint64, reader io.Reader) error {
 				if expire != 0 && expire < s.timerwheel.clock.NowNano() {
 					continue
 				}
-				if s.policy.window.Len() < int(s.policy.window.capacity) {
+				if s.policy.window.Len()+int(pentry.PolicyWeight) <= int(s.policy.window.capacity) {
 					entry := pentry.entry()
 					s.policy.window.PushBack(entry)
 					s.insertSimple(entry)
@@ -1058,7 +1058,7 @@ func (s *Store[K, V]) Recover(version uint64, reader io.Reader) error {
 				}
 				l1 := s.policy.slru.protected
 				l2 := s.policy.slru.probation
-				if l1.len+l2.len < int64(s.policy.slru.maxsize) {
+				if l1.len+l2.len+pentry.PolicyWeight <= int64(s.policy.slru.maxsize) {
 					entry := pentry.entry()
 					l2.PushBack(entry)
 					s.insertSimple(entry)
@@ -1084,7 +1084,7 @@ func (s *Store[K, V]) Recover(version uint64, reader io.Reader) error {
 					continue
 				}
 				l := s.policy.slru.protected
-				if l.len < int64(l.capacity) {
+				if l.len+pentry.PolicyWeight <= int64(l.capacity) {
 					entry := pentry.entry()
 					l.PushBack(entry)
 					s.insertSimple(entry)
